@@ -1,3 +1,5 @@
+//go:build verifsched
+
 // c07run is the explorer side of C07. It only builds against the instrumented overlay produced by cmd/vinstr
 // (it calls the generated VerifSnapshot functions and the injected vsched package).
 //
